@@ -241,7 +241,8 @@ func c20TLS(c *vf.Ctx) {
 			base = []string{"/dns/", "/dns4/", "/dns6/"}[r.Intn(3)] + host
 		}
 		base += fmt.Sprintf("/tcp/%d", port)
-		forms := map[string]string{"/http": "http", "/https": "https", "/tls/http": "https"}
+		forms := map[string]string{"/http": "http", "/https": "https", "/tls/http": "https",
+			"/tls/sni/pub.example.com/http": "https", "/http/http-path/a%2Fb": "http", "/tls/http/http-path/a%2Fb": "https", "/https/http-path/a": "https"}
 		c.Cur(sub, i, base)
 		for suffix, want := range forms {
 			ma, err := multiaddr.NewMultiaddr(base + suffix)
